@@ -148,7 +148,7 @@ pub fn format_and_paint_line_numbers<'a>(
 }
 
 lazy_static! {
-    static ref LINE_NUMBERS_PLACEHOLDER_REGEX: Regex =
+    pub static ref LINE_NUMBERS_PLACEHOLDER_REGEX: Regex =
         format::make_placeholder_regex(&["nm", "np"]);
 }
 
